@@ -55,9 +55,9 @@ def ctor7 (p : V3 α) (x y z w : α) : Tm α := setQuat (ofTAA ⟨p, v3zero⟩) 
 /-- Python's float `%` with a positive modulus -/
 def pymod (x m : α) : α := x - m * floor (x / m)
 
-/-- `tm.angleMod`: components above 2π in magnitude are reduced modulo π (sic) -/
+/-- `tm.angleMod`: components above 2π in magnitude are reduced modulo 2π -/
 def angleMod (t : Tm α) : Tm α :=
-  let f := fun (x : α) => if 2 * pi < sabs x then pymod x pi else x
+  let f := fun (x : α) => if 2 * pi < sabs x then pymod x (2 * pi) else x
   let r := t.TAA.b
   if 2 * pi < sabs r.x ∨ 2 * pi < sabs r.y ∨ 2 * pi < sabs r.z then
     ofTAA ⟨t.TAA.a, ⟨f r.x, f r.y, f r.z⟩⟩
